@@ -737,6 +737,14 @@ def pat_idles(rnd, sid):
             steps.append({"op": "insert_idle", "i": i})
         if pending and r.random() < 0.4:
             steps.append({"op": r.choice(["cancel_idle", "drop_idle"]), "i": r.choice(pending)})
+        if len(pending) >= 2 and r.random() < 0.5:
+            # cancel an idle that is NOT the last one queued, then queue more: the newcomers run after everything
+            # that was queued before them (insertion order, not "first free place")
+            steps.append({"op": "cancel_idle", "i": r.choice(pending[:-1])})
+            for _ in range(r.choice([1, 2])):
+                i = new_idle(0)
+                pending.append(i)
+                steps.append({"op": "insert_idle", "i": i})
         if r.random() < 0.4:
             steps.append({"op": "ping", "s": 1})
         steps.append({"op": "dispatch"})
@@ -947,6 +955,29 @@ def pat_dupfd(rnd, sid):
     return {"id": sid, "tick_us": 2000, "sources": srcs, "progs": progs, "steps": steps}
 
 
+def pat_chanfull(rnd, sid):
+    """A bounded channel that is exactly full (and around it) when the loop gets to it: everything is delivered, and the
+    dispatches that follow have nothing to do -- a timed one must wait for its whole timeout."""
+    r = rnd
+    cap = r.choice([1, 2, 3])
+    srcs = [{"s": 1, "kind": "chan", "cap": cap}]
+    if r.random() < 0.4:
+        srcs.append({"s": 2, "kind": "ping"})
+    steps = [{"op": "insert", "s": d["s"]} for d in srcs]
+    m = 900
+    for rnd_i in range(r.choice([1, 2, 3])):
+        for _ in range(r.choice([cap, cap, cap - 1, cap + 1])):
+            m += 1
+            steps.append({"op": "send", "s": 1, "m": m})
+        if len(srcs) > 1 and r.random() < 0.3:
+            steps.append({"op": "ping", "s": 2})
+        steps.append({"op": "dispatch"})
+        steps.append({"op": "dispatch", "timeout": r.choice([3, 5]) * 2000})
+    steps += [{"op": "dispatch"}, {"op": "dispatch", "timeout": 3 * 2000}]
+    scn = {"id": sid, "tick_us": 2000, "sources": srcs, "progs": {}, "steps": steps}
+    return scn
+
+
 def gen(seed, n, classes=None):
     classes = classes or CLASSES
     out = []
@@ -962,6 +993,8 @@ def gen(seed, n, classes=None):
             out.append(pat_defer(rnd, "d%d_%s_%d" % (seed, cls, i)))
         elif 0.8 <= x < 0.9 and cls in ("fds", "reuse"):
             out.append(pat_dupfd(rnd, "u%d_%s_%d" % (seed, cls, i)))
+        elif 0.4 <= x < 0.7 and cls == "chans":
+            out.append(pat_chanfull(rnd, "q%d_%s_%d" % (seed, cls, i)))
         elif cls == "execs":
             out.append(pat_exec(rnd, "e%d_%s_%d" % (seed, cls, i)))
         elif 0.55 <= x < 0.8 and cls == "faults":
